@@ -2553,6 +2553,12 @@ impl Connection {
                 return Ok(());
             }
             State::Closed(_) => {
+                if !packet.header.has_frames() {
+                    // Retry and Version Negotiation packets carry no frames, and anyone can
+                    // produce them
+                    trace!("discarding packet without frames while closed");
+                    return Ok(());
+                }
                 for result in frame::Iter::new(packet.payload.freeze())? {
                     let frame = match result {
                         Ok(frame) => frame,
